@@ -800,6 +800,61 @@ def _split_tuple_assigns(node) -> None:
             i += 1
 
 
+def _expand_unpack(node) -> None:
+    """a, b, c = <expr>   ->   __u = <expr>; a = __u[0]; b = __u[1]; c = __u[2]
+    (plain names on the left, no star; the right side anything but a tuple display — those are split by _split_tuple_assigns).
+    The length check of the unpacking is the only thing lost, and no rule depends on it."""
+    for block in _blocks(node):
+        i = 0
+        while i < len(block):
+            st = block[i]
+            if isinstance(st, ast.Assign) and len(st.targets) == 1 and isinstance(st.targets[0], ast.Tuple) and \
+                    not isinstance(st.value, (ast.Tuple, ast.List)) and len(st.targets[0].elts) >= 2 and \
+                    all(isinstance(t, ast.Name) for t in st.targets[0].elts):
+                tmp = f"__u{next(_counter)}"
+                new = [ast.Assign(targets=[ast.Name(id=tmp, ctx=ast.Store())], value=st.value)]
+                for k, t in enumerate(st.targets[0].elts):
+                    new.append(ast.Assign(targets=[ast.Name(id=t.id, ctx=ast.Store())],
+                                          value=ast.Subscript(value=ast.Name(id=tmp, ctx=ast.Load()), slice=ast.Constant(value=k), ctx=ast.Load())))
+                new = [ast.fix_missing_locations(ast.copy_location(x, st)) for x in new]
+                block[i:i + 1] = new
+                i += len(new)
+                continue
+            i += 1
+
+
+def _version_rebinds(node: ast.FunctionDef) -> None:
+    """x = e0; ... x = f(x) ...   ->   x = e0; ... x__2 = f(x) ...  for names re-bound by plain assignments at the top level of
+    the function body only (no binding of the name inside a compound statement, no augmented assignment, not a parameter):
+    every later read sees the latest version, so each version is a single-assignment name the substitution can handle"""
+    params = {a.arg for a in node.args.posonlyargs + node.args.args + node.args.kwonlyargs}
+    top_defs: Dict[str, int] = {}
+    for st in node.body:
+        if isinstance(st, ast.Assign) and len(st.targets) == 1 and isinstance(st.targets[0], ast.Name):
+            top_defs[st.targets[0].id] = top_defs.get(st.targets[0].id, 0) + 1
+    all_stores: Dict[str, int] = {}
+    for n in ast.walk(node):
+        if isinstance(n, ast.Name) and isinstance(n.ctx, (ast.Store, ast.Del)):
+            all_stores[n.id] = all_stores.get(n.id, 0) + 1
+    cands = {v for v, c in top_defs.items() if c >= 2 and all_stores.get(v) == c and v not in params}
+    if not cands:
+        return
+    cur: Dict[str, str] = {}
+    ver: Dict[str, int] = {}
+    for st in node.body:
+        # reads first (the right-hand side sees the previous version)
+        tgt = st.targets[0] if isinstance(st, ast.Assign) and len(st.targets) == 1 and isinstance(st.targets[0], ast.Name) else None
+        for n in ast.walk(st):
+            if isinstance(n, ast.Name) and n.id in cur and isinstance(n.ctx, ast.Load) and n is not tgt:
+                n.id = cur[n.id]
+        if tgt is not None and tgt.id in cands:
+            base = tgt.id
+            ver[base] = ver.get(base, 0) + 1
+            if ver[base] > 1:
+                tgt.id = f"{base}__{ver[base]}"
+                cur[base] = tgt.id
+
+
 def _blocks(node):
     """every statement list of a function (no nested definitions)"""
     out = []
@@ -1150,6 +1205,8 @@ def normalise(M, fn, subst: bool = False, guards: bool = False, keep=(), comps: 
         _inline_closures(node, [])
     if subst:
         _split_tuple_assigns(node)
+        _expand_unpack(node)
+        _version_rebinds(node)
         _forward_subst(node, set(keep), alias_only=(subst == "alias"))
     else:
         # only the temporaries the normaliser itself introduced for helper / closure arguments are put back (single use)
